@@ -31,3 +31,27 @@ PLANS["C05"] = Plan(
     functions=[TL + ":tour_length"],
     explanation="tour_length equals the cyclic edge sum for every matrix/permutation/dtype; no int64 overflow",
 )
+
+
+META = {
+    "C05": {"text": "tour_length proved equal to the cyclic edge sum, overflow-free, for every matrix/permutation/dtype "
+                    "(unbounded, z3); a proof is the right level because the property quantifies over all instances",
+            "note": "trusted: VC generator, z3/cvc5; numba computes integer arithmetic in 64 bits (NBEP-1)",
+            "technique": "contract-based deductive verification (VCs from the real AST, z3/cvc5)"},
+    "C06": {"text": "both kernels and both solve() loops proved against contracts: permutation preserved, length exact "
+                    "(segment-reversal lemmas by induction), EA monotone, FEA table indices in range; every register(x, y) "
+                    "call is a proved pre@call obligation; bounded run-time monitor on the real solve() as replay vehicle",
+            "note": "assumed: contracts of moptipy Process / numpy Generator calls (summaries), axiom tour_le_ub "
+                    "(justified by C05 + Lean lemma A3)",
+            "technique": "contract-based deductive verification (loop invariants, inductive lemmas, z3/cvc5)"},
+}
+
+_PENDING = "check under construction in this build round (DESIGN.md section 4); not claimed until it is green"
+NOT_APPLICABLE = [
+    {"property_id": "C12", "reason": "whole-run two-execution property through moptipy Execution/RNG/log files; no "
+                                     "contract on a function of this repository can state it (DESIGN.md section 8)"},
+]
+for _p in ["C01", "C02", "C03", "C04", "C07", "C08", "C09", "C10", "C11", "C13", "C14", "C15", "C16", "C17", "C18",
+           "C19", "C20"]:
+    if _p not in PLANS:
+        NOT_APPLICABLE.append({"property_id": _p, "reason": _PENDING})
